@@ -44,6 +44,9 @@ type Ref struct {
 	MaxAlloc int
 	total    int
 	TooBig   bool
+	// Huge: the evaluation had to create a range larger than any budget in use;
+	// it fails by the definition (budget), whatever the budget.
+	Huge bool
 }
 
 const refDefaultMaxSteps = 400000
@@ -607,16 +610,19 @@ func (r *Ref) bin(n *N) (interface{}, *EvalError) {
 		if !ok1 || !ok2 {
 			return nil, r.fail(n, "range of %T..%T", a, b)
 		}
-		size := y - x + 1
-		if size < 0 {
-			size = 0
-		}
-		if size > 1<<21 {
-			// Would not fit any budget the simulator uses; the definition says
-			// such a run fails (budget). Do not build it.
-			r.Allocs = append(r.Allocs, size)
-			r.TooBig = true
-			return nil, r.fail(n, "range too large for any budget")
+		size := 0
+		if y >= x {
+			// number of elements, computed without overflow (y-x+1 can exceed the int range)
+			span := uint64(y) - uint64(x)
+			if span >= 1<<21 {
+				// Does not fit any budget the simulator uses (<= 10^6): by the definition
+				// such a run fails for budget reasons. Do not build it.
+				r.Allocs = append(r.Allocs, 1<<40)
+				r.TooBig = true
+				r.Huge = true
+				return nil, r.fail(n, "range too large for any budget")
+			}
+			size = int(span) + 1
 		}
 		if e := r.alloc(n, size); e != nil {
 			return nil, e
